@@ -165,7 +165,23 @@ static int well_typed(DataSubset *s, BufrDescValue *codes, int nk)
    return 1;
    }
 
-/* find.vals <ss|dd> <k> <start> key...   key = [q]<descriptor>[=v{,v}] */
+/* the callbacks of callback keys (bufr_set_key_callback): `c<descriptor>=i<kind>,i<argument>`
+ * kind 0: always a match, 1: never, 2: the element holds the INT32 value <argument>.  0 = match. */
+struct cb_data { int kind; int arg; };
+static struct cb_data cb_store[64];
+static int cb_fn(void *data, BufrDescriptor *bd)
+   {
+   struct cb_data *c = (struct cb_data *)data;
+   switch (c->kind)
+      {
+      case 0: return 0;
+      case 1: return 1;
+      case 2: return (bd && bd->value && bd->value->type == VALTYPE_INT32 && bufr_value_get_int32(bd->value) == c->arg) ? 0 : 1;
+      default: return 1;
+      }
+   }
+
+/* find.vals <ss|dd> <k> <start> key...   key = [q]<descriptor>[=v{,v}] | c<descriptor>=i<kind>,i<argument> */
 static int find_vals(int argc, char **argv)
    {
    DataSubset *s; BufrDescValue *codes; int nk, i, j, ok = 1, unsupported = 0, rc;
@@ -176,6 +192,26 @@ static int find_vals(int argc, char **argv)
    for (i = 0; i < nk; i++)
       {
       char *t = argv[4 + i], *eq, *p, *tok, *toks[64]; int isq = 0, desc, nv = 0;
+      if (*t == 'c')
+         {
+         /* callback key */
+         char *e2 = strchr(t, '='), *comma;
+         long kind, arg;
+         t++;
+         if (!e2 || i >= 64) { ok = 0; break; }
+         *e2 = 0;
+         if (!is_num(t) || *t == '-' || strlen(t) > 6) { ok = 0; break; }
+         comma = strchr(e2 + 1, ',');
+         if (!comma || e2[1] != 'i' || comma[1] != 'i' || strchr(comma + 1, ',')) { ok = 0; break; }
+         *comma = 0;
+         if (!valid_token(e2 + 1) || !valid_token(comma + 1)) { ok = 0; break; }
+         kind = strtol(e2 + 2, NULL, 10); arg = (int)strtoll(comma + 2, NULL, 10);
+         desc = atoi(t);
+         if (desc >= 0x20000 || kind < 0 || kind > 2) { unsupported = 1; break; }
+         cb_store[i].kind = (int)kind; cb_store[i].arg = (int)arg;
+         bufr_set_key_callback(&codes[i], desc, cb_fn, &cb_store[i]);
+         continue;
+         }
       if (*t == 'q') { isq = 1; t++; }
       eq = strchr(t, '=');
       if (eq) *eq = 0;
